@@ -431,7 +431,7 @@ class World:
         post_heap = snapshot(self.cinco, self.configs)
         obs["extra"] = {"schema": post_schema == self.snap_schema, "heap": post_heap == self.snap_heap}
         self.refresh()
-        self.snap_schema, self.snap_heap = snapshot(self.cinco, [self.schema, self.rtype]), post_heap
+        self.snap_schema, self.snap_heap = post_schema, post_heap
         return obs
 
 
@@ -759,8 +759,10 @@ def run(tier, seed):
     if any(len(gen_by.get(t, ())) != len(family) for t in ("schema", "config", "ctype")):
         raise tlc.TLCError("vacuous: GenStub cases per target %s for %d schemas" % ({t: len(v) for t, v in gen_by.items()}, len(family)))
     for m in mism:
-        spec_ev, spec_to = m.expected[0]["ev"], m.expected[0]["to"]
-        sig = classify(spec_ev, m.observed["ev"], spec_to, m.observed["state"])
+        # where the specification leaves a choice (run-time fields declared or not) name the
+        # difference against the closest alternative
+        sigs = [classify(x["ev"], m.observed["ev"], x["to"], m.observed["state"]) for x in m.expected]
+        sig = next((x for x in sigs if not x.startswith("gen:res")), sigs[0])
         js = m.to_json()
         js["schema"] = family[m.init["sid"] - 1]
         out.violation(
